@@ -450,6 +450,47 @@ example : WellKeyed exCI ∧ JsonParse.intFits JsonParse.defaultLimit exCI.compo
      | .ok t => (match reloadDump JsonParse.parse t with | .ok t' => t' == t | .error _ => false)
      | .error _ => false) = true := by decide +kernel
 
+/-! ### a load replaces what the object held (F41, repaired) -/
+
+/-- **A load REPLACES what the object held.**  Whatever the object holds — nothing, a compose filled in through the API, a
+compose loaded before — a successful `loads()`/`load()` leaves exactly what a fresh object would hold after reading the
+document: the result is the same for every prior state, and it is the reader's own result.  (Tied to the library by the
+`preload` stream of the check: a second compose, or the same text, is loaded into a used object.) -/
+theorem C01_load_replaces (held : ComposeInfo) (doc : PyVal) :
+    (∀ held0, loadInto held0 doc = loadInto held doc) ∧
+    (∀ ci, loadInto held doc = .ok ci → deserialize doc = .ok ci) := by
+  refine ⟨fun _ => rfl, fun ci h => ?_⟩
+  unfold loadInto loadsDoc at h
+  split at h
+  · cases h
+  · rename_i c hc
+    split at h
+    · cases h
+    · cases h; exact hc
+
+/-- **Re-reading the own dump into a used object**: an object holding ANYTHING (for instance the very compose that was
+written) that is handed the written document — as built by the writer or key-sorted as `json.load` returns it — ends up
+holding exactly the normal form of what was written: no union with what it held, and the same text can be loaded any
+number of times. -/
+theorem C01_reload_into_used_object (held ci : ComposeInfo) (j : PyVal) (hk : WellKeyed ci) (h : serialize ci = .ok j)
+    (hv : validateClass "composeinfo.ComposeInfo" [] = .ok ()) :
+    loadInto held j = .ok ci.norm ∧ loadInto held (PyVal.canon j) = .ok ci.norm ∧
+    loadInto ci.norm (PyVal.canon j) = .ok ci.norm := by
+  have h1 := C01_loads ci j hk h hv
+  have h2 := loadsDoc_canon (serialize_rep 0 ci j h).1 _ h1
+  exact ⟨h1, h2, h2⟩
+
+/-- non-vacuity: the depth-3 example compose is written; its document is loaded into an object that holds the forest
+built by the `add` history `exOps` (other variants, other release) and into one that holds the example itself — both end
+up with the normal form of the example, twice in a row -/
+example : (match serialize exCI with
+    | .ok j => (match loadInto exApiCI j, loadInto exCI (PyVal.canon j) with
+        | .ok a, .ok b => (uidsL a.variants == uidsL exCI.norm.variants) && (uidsL b.variants == uidsL exCI.norm.variants)
+            && (match loadInto a (PyVal.canon j) with | .ok c => uidsL c.variants == uidsL a.variants | .error _ => false)
+            && !(uidsL exApiCI.variants == uidsL exCI.norm.variants)
+        | _, _ => false)
+    | .error _ => false) = true := by decide +kernel
+
 /-! ### the documented enumerations are exactly the tables the code carries -/
 def CI.sameSet (a b : List Str) : Bool := a.all (b.contains ·) && b.all (a.contains ·)
 
